@@ -1,4 +1,5 @@
 import Zog.Wire
+import Zog.Spec
 import Zog.Msg
 import Zog.Gen.Tables
 import Zog.Gen.Facts
@@ -35,7 +36,11 @@ def runEngine (args : List Sexp) : Option Sexp := do
     let ω ← orderOracle? orderS
     let env : Env := { fmt := defaultFmt Gen.enMap, ω := ω }
     let r := Engine.run env Gen.facts m s tag v d
-    pure (node "res" [id, issueMapS (toIssueMap r.2.sink), node "dest" [dvalS r.1], node "log" (r.2.log.map eventS)])
+    let sp := Spec.run env m s tag v d
+    let pr (r : DVal × St) : Sexp :=
+      node "res" [id, issueMapS (toIssueMap r.2.sink), node "dest" [dvalS r.1], node "log" (r.2.log.map eventS)]
+    -- engine (mechanism model under the regenerated facts) and spec (reference semantics), tab-separated
+    pure (.atom (toString (pr r) ++ "\t" ++ toString (pr sp)))
   | _ => none
 
 def dispatch (line : String) : String :=
